@@ -283,6 +283,65 @@ def _full_batches(ctx, app):
                    'batch_size)')
 
 
+def _oldest_first(ctx):
+    """C18.3: the server-trace archiver takes the oldest events first: the
+    batch is the head of a merge by timestamp, and a merge orders nothing by
+    itself - each of its inputs is sorted (sorted in place after the last
+    element was added, or sorted by construction: empty, sorted(..), the
+    head of an earlier merge).  Otherwise younger events are archived while
+    older ones stay live, and the reader, which takes snapshots before live
+    nodes and drops what is older than the last event seen, loses them."""
+    srv = ctx.index.module(SRV)
+    func = srv.functions.get('cleanup_server_trace')
+    ctx.require(func is not None, 'cleanup_server_trace', rule='C18.3')
+    graph = ctx.cfg(func)
+    merges = [(n, c) for n, c in K.nodes_calling(
+        graph, lambda c: K.callee_text(c) == 'heapq.merge')]
+    ctx.require(merges, 'the merge by timestamp of cleanup_server_trace',
+                rule='C18.3', func=func)
+
+    def by_construction(val):
+        if isinstance(val, (ast.List, ast.Tuple)) and not val.elts:
+            return True
+        if isinstance(val, ast.Call) and K.callee_text(val) == 'sorted':
+            return True
+        return any(isinstance(c, ast.Call) and
+                   K.callee_text(c) == 'heapq.merge'
+                   for c in ast.walk(val))
+    for mnode, call in merges:
+        ctx.ob('C18.3', func, mnode, not call.keywords,
+               'the merge compares whole entries (timestamp first)',
+               construct='merge key')
+        for arg in call.args:
+            if not isinstance(arg, ast.Name):
+                ctx.ob('C18.3', func, mnode, by_construction(arg),
+                       'merge input %s is sorted by construction'
+                       % N.txt(arg), construct='merge input sorted')
+                continue
+            name = arg.id
+            defs = [n for n in graph.nodes if n.kind == 'stmt' and
+                    isinstance(n.ast, ast.Assign) and
+                    N.txt(n.ast.targets[0]) == name]
+            grows = [n for n in graph.nodes if any(
+                K.is_meth(c, 'append', 'extend', 'insert') and
+                K.recv_text(c) == name for c in C.node_calls(n))]
+            sorts = [n for n in graph.nodes if any(
+                K.is_meth(c, 'sort') and K.recv_text(c) == name and
+                not c.keywords for c in C.node_calls(n))]
+            ok = all(by_construction(d.ast.value) for d in defs)
+            leak = None
+            for grow in grows:
+                leak = leak or K.find_path(
+                    grow, [mnode], cut_node=lambda n: n in sorts,
+                    follow_exc=False)
+            ctx.ob('C18.3', func, mnode, ok and leak is None,
+                   'merge input %s is sorted when it is merged (sorted in '
+                   'place after the last element was added, or sorted by '
+                   'construction)' % name,
+                   path=K.describe(leak) if leak else None,
+                   construct='merge input %s sorted' % name)
+
+
 def _keep_newest(ctx, mod):
     func = mod.functions.get('cleanup')
     ctx.require(func is not None, '_zk.cleanup')
@@ -472,6 +531,38 @@ def _callers_and_readers(ctx, app):
                'adjacent)', construct='snapshot walk of the reader')
 
 
+def _snapshots_first(ctx, app):
+    """C18.5: the reader takes the archived events before the live ones: the
+    shared filter drops what is older than the last event handed on, and the
+    live watch delivers its first batch when it is registered - snapshots
+    read afterwards would all be dropped as old."""
+    srv = ctx.index.module(SRV)
+    for mod, cname in ((app, 'AppTraceLoop'), (srv, 'ServerTraceLoop')):
+        cls = mod.classes.get(cname)
+        run = cls.methods.get('run') if cls else None
+        if run is None:
+            continue
+        graph = ctx.cfg(run)
+        db = [n for n, c in K.nodes_calling(
+            graph, lambda c: K.is_meth(c, '_process_db_events'))]
+        live = [n for n in graph.nodes if n.kind == 'stmt' and
+                isinstance(n.ast, (ast.FunctionDef,
+                                   ast.AsyncFunctionDef)) and
+                any('ChildrenWatch' in N.txt(d)
+                    for d in n.ast.decorator_list)]
+        live += [n for n, c in K.nodes_calling(
+            graph, lambda c: K.is_meth(c, 'ChildrenWatch'))]
+        if not db and not live:
+            continue
+        ctx.require(db and live, 'snapshot read and live watch of %s.run'
+                    % cname, rule='C18.5', func=run)
+        late = [d for d in db if any(
+            d in C.reach_after(w, edge_ok=C.no_exc) for w in live)]
+        ctx.ob('C18.5', run, late[0] if late else db[0], not late,
+               '%s.run reads the snapshots before it registers the live '
+               'watch' % cname, construct='%s snapshots before live' % cname)
+
+
 def _reader_filter(ctx, mod):
     """C18.5: what the reader hands on is every event of its own object (of
     a batch, live or downloaded from a snapshot): the walk over the batch is
@@ -535,9 +626,11 @@ def check(ctx):
     mod, up = _upload(ctx)
     app = _selection(ctx)
     _full_batches(ctx, app)
+    _oldest_first(ctx)
     _keep_newest(ctx, mod)
     _schema(ctx, mod, up, app)
     _callers_and_readers(ctx, app)
+    _snapshots_first(ctx, app)
     _reader_filter(ctx, mod)
 
 
